@@ -37,8 +37,18 @@ def expectedWrappers : List (String × String × List String) := [
   ("ToDotPath", "utils.ToDotPath", ["path"]),
   ("TreeifyError", "TreeifyErrorWithMapper", ["zodErr", "defaultIssueMapper(zodErr.formatter)"])]
 
+/-- the guard a thin entry point may carry for a nil `*ZodError` (pending/C19-nil-error.diff): the
+    transcribed function is called on nil, which it reads as an error without issues
+    (`reportsCfg … none`, Model/IssuesGo.lean) -/
+def expectedGuard (callee : String) : String :=
+  "if zodErr == nil { return " ++ callee ++ "(nil, nil) }"
+
 /-- **the whole wrapper table is as expected** -/
-theorem c19_wrappers_as_expected : wrappers = expectedWrappers := by decide
+theorem c19_wrappers_as_expected : wrappers.map (fun w => (w.1, w.2.1, w.2.2.1)) = expectedWrappers := by decide
+
+/-- … and a guard in front of the call, where there is one, is the nil guard -/
+theorem c19_wrapper_guards_as_expected :
+    wrappers.all (fun w => w.2.2.2 == "" || w.2.2.2 == expectedGuard w.2.1) = true := by decide
 
 /-- the functions of errors.go the Lean model transcribes statement by statement
     (Model/Issues.lean: flatten, treeify + Tree.insert, formatError, prettify) -/
